@@ -189,6 +189,30 @@ func (h *H) livePool() []*wire.MsgTx {
 	return live
 }
 
+// claimedForeign: non-wallet coins that some transaction known to the harness spends, whether that transaction is
+// alive or not. Without option ForeignInputs such a coin belongs to its first spender for ever: a transaction that was
+// conflicted away through a WALLET coin may come back to life when the conflicting block is reorganised away (a node
+// may well still hold it), and if another wallet-relevant transaction had taken its non-wallet coin meanwhile, the two
+// would conflict on a coin the wallet does not watch — the shape of the recorded finding stale-pending:foreign-input,
+// which is generated on request only (false alarm of C10 on history 779 of the escalated quick tier, DESIGN §10).
+func (h *H) claimedForeign() map[wire.OutPoint]bool {
+	m := map[wire.OutPoint]bool{}
+	if h.px().opt.ForeignInputs {
+		return m
+	}
+	owned := h.ownedSh()
+	for _, tx := range h.px().all {
+		for _, in := range tx.TxIn {
+			if c := h.Utxo[in.PreviousOutPoint]; c != nil {
+				if _, own := owned[c.Sh]; !own {
+					m[in.PreviousOutPoint] = true
+				}
+			}
+		}
+	}
+	return m
+}
+
 func spentByPool(live []*wire.MsgTx) map[wire.OutPoint]*wire.MsgTx {
 	m := map[wire.OutPoint]*wire.MsgTx{}
 	for _, tx := range live {
@@ -217,8 +241,12 @@ func (h *H) sources(live []*wire.MsgTx, includeSpent bool) []src {
 	spent := spentByPool(live)
 	var l []src
 	wbest := h.W.H.VerifBest().Height
+	claimed := h.claimedForeign()
 	for _, c := range h.matureSorted(next) {
 		if _, s := spent[c.Op]; s && !includeSpent {
+			continue
+		}
+		if claimed[c.Op] {
 			continue
 		}
 		if c.Height > wbest && !h.px().opt.UnseenParents {
@@ -494,6 +522,9 @@ func (h *H) BuildBlockP(ntx int, extra []*wire.MsgTx) *massutil.Block {
 		}
 	}
 	for op := range spentByPool(h.livePool()) {
+		used[op] = true
+	}
+	for op := range h.claimedForeign() {
 		used[op] = true
 	}
 	var av2 []*Coin
@@ -998,15 +1029,18 @@ func (h *H) KnownDelivered() *wire.MsgTx {
 		}
 	}
 	cands := e.pool
-	if e.restarted && !e.opt.AlreadyMined {
-		// the volatile set is gone: a node would re-announce only what is still unconfirmed
+	if e.restarted {
+		// the volatile set is gone: a node would re-announce only what is still unconfirmed and can still
+		// confirm (its pool has dropped a transaction whose input a confirmed transaction spends: delivering
+		// that one again is not an event the node can produce — false alarm of C09 thorough, history 1147,
+		// DESIGN §10); with option AlreadyMined also what has confirmed meanwhile
 		cands = nil
 		live := map[wire.Hash]bool{}
 		for _, tx := range h.livePool() {
 			live[tx.TxHash()] = true
 		}
 		for _, tx := range e.pool {
-			if live[tx.TxHash()] {
+			if live[tx.TxHash()] || (e.opt.AlreadyMined && h.OnBest(tx.TxHash())) {
 				cands = append(cands, tx)
 			}
 		}
